@@ -549,11 +549,11 @@ fn may_be_unsized(ty: &Type, generics: &syn::Generics) -> bool {
             }
             if let Some(ident) = t.path.get_ident() {
                 let by_param = generics.params.iter().any(|p| {
-                    matches!(p, GenericParam::Type(p) if &p.ident == ident && is_maybe_sized(&p.bounds))
+                    matches!(p, GenericParam::Type(p) if p.ident.unraw() == ident.unraw() && is_maybe_sized(&p.bounds))
                 });
                 let by_where = generics.where_clause.iter().flat_map(|w| &w.predicates).any(|p| {
                     matches!(p, WherePredicate::Type(p)
-                        if matches!(&p.bounded_ty, Type::Path(b) if b.path.is_ident(ident)) && is_maybe_sized(&p.bounds))
+                        if matches!(&p.bounded_ty, Type::Path(b) if b.path.get_ident().map(|i| i.unraw()) == Some(ident.unraw())) && is_maybe_sized(&p.bounds))
                 });
                 return by_param || by_where;
             }
